@@ -1,44 +1,81 @@
 #!/usr/bin/env python3
-"""Apply every seeded change to /repo, run the check of its property, record the verdict, undo.
-usage: run_seeds.py [seed-dir-name ...]   (writes seeded/<id>/meta.json 'caught_by' and seeded/RESULTS.md)"""
-import json, os, re, subprocess, sys, time
+"""Apply every seeded change to a scratch worktree of /repo's HEAD, run the check of its property on it, record the verdict.
+usage: run_seeds.py [seed-dir-name ...]   (writes seeded/<id>/meta.json 'caught_by' and seeded/RESULTS.md)
+
+/repo itself is never touched: each property gets its own worktree under /tmp/wt (removed afterwards) and the check reads
+it through PYVC_REPO.  Evidence / replay files are per property, so different properties run in parallel (SEED_JOBS)."""
+import json, os, subprocess, sys, time
+from concurrent.futures import ThreadPoolExecutor
+
 V = os.path.dirname(os.path.dirname(os.path.abspath(__file__)))
 names = sys.argv[1:] or sorted(d for d in os.listdir(os.path.join(V, "seeded")) if os.path.isdir(os.path.join(V, "seeded", d)))
-rows = []
-assert subprocess.run("git -C /repo status --porcelain", shell=True, capture_output=True, text=True).stdout.strip() == "", "/repo not clean"
-for n in names:
-    d = os.path.join(V, "seeded", n)
-    meta = json.load(open(os.path.join(d, "meta.json")))
-    prop = meta["property"]
-    a = subprocess.run("git -C /repo apply %s/patch.diff" % d, shell=True, capture_output=True, text=True)
-    if a.returncode != 0:
-        rows.append((n, prop, "PATCH DOES NOT APPLY", "", 0)); print(n, "patch does not apply"); continue
-    t0 = time.time()
+JOBS = int(os.environ.get("SEED_JOBS", "5"))
+
+
+def sh(cmd, **kw):
+    return subprocess.run(cmd, shell=True, capture_output=True, text=True, **kw)
+
+
+HEAD = sh("git -C /repo rev-parse --short HEAD").stdout.strip()
+
+
+def run_property(prop, seeds):
+    wt = "/tmp/wt/seedrun-%s" % prop
+    sh("git -C /repo worktree remove --force %s" % wt)
+    r = sh("git -C /repo worktree add -q --detach %s HEAD" % wt)
+    assert r.returncode == 0, r.stderr
     try:
-        try:
-            r = subprocess.run("cd %s && ./check %s --tier quick" % (V, prop), shell=True, capture_output=True, text=True, timeout=600)
-            out = r.stdout
-            code = r.returncode
-        except subprocess.TimeoutExpired:
-            out = ""
-            code = 2
-            subprocess.run("ps aux | grep 'pyvc[.]cli' | awk '{print $2}' | xargs -r kill", shell=True)
+        for n in seeds:
+            d = os.path.join(V, "seeded", n)
+            meta = json.load(open(os.path.join(d, "meta.json")))
+            sh("git -C %s checkout -- . && git -C %s clean -fdq" % (wt, wt))
+            a = sh("git -C %s apply %s/patch.diff" % (wt, d))
+            if a.returncode != 0:
+                meta["caught_by"] = {"verdict": "PATCH DOES NOT APPLY", "repo_head": HEAD}
+                json.dump(meta, open(os.path.join(d, "meta.json"), "w"), indent=1)
+                print(n, "patch does not apply", flush=True)
+                continue
+            t0 = time.time()
+            try:
+                p = subprocess.Popen("cd %s && PYVC_REPO=%s exec ./check %s --tier quick" % (V, wt, prop), shell=True,
+                                     stdout=subprocess.PIPE, stderr=subprocess.PIPE, text=True, start_new_session=True)
+                try:
+                    out, _err = p.communicate(timeout=1200)
+                    code = p.returncode
+                except subprocess.TimeoutExpired:
+                    import signal
+                    os.killpg(p.pid, signal.SIGKILL)
+                    p.communicate()
+                    out, code = "", 2
+            except OSError:
+                out, code = "", 3
+            viol = [l for l in out.splitlines() if l.startswith("VIOLATION")]
+            obl = [l.strip().split("failed obligation: ")[1] for l in out.splitlines() if "failed obligation:" in l]
+            fallback = [l for l in out.splitlines() if l.startswith("BOUNDED-FALL-BACK")]
+            confirmed = any(not v.endswith("no-failing-input-found") for v in viol)
+            harmless = meta.get("kind", "").startswith("harmless")
+            if harmless:
+                verdict = ("quiet (correct)" + (", bounded fall-back for an edited loop" if fallback else "")) if code == 0 else (
+                    "FALSE ALARM" if code == 1 else "UNDECIDED(exit %d)" % code)
+            else:
+                verdict = "caught" if code == 1 and viol else ("UNDECIDED(exit %d)" % code if code in (2, 3) else "MISSED")
+            meta["caught_by"] = {"check": "./check %s --tier quick" % prop, "exit": code, "verdict": verdict,
+                                 "failed_obligations": obl[:6], "counterexample_replayed_natively": confirmed,
+                                 "seconds": round(time.time() - t0, 1), "repo_head": HEAD}
+            json.dump(meta, open(os.path.join(d, "meta.json"), "w"), indent=1)
+            print(n, verdict, obl[:1], "native-confirmed" if confirmed else "", flush=True)
     finally:
-        subprocess.run("git -C /repo checkout -- .", shell=True)
-    viol = [l for l in out.splitlines() if l.startswith("VIOLATION")]
-    obl = [l.strip().split("failed obligation: ")[1] for l in out.splitlines() if "failed obligation:" in l]
-    confirmed = any(not v.endswith("no-failing-input-found") for v in viol)
-    harmless = meta.get("kind", "").startswith("harmless")
-    if harmless:
-        verdict = "quiet (correct)" if code == 0 else ("FALSE ALARM" if code == 1 else "UNDECIDED(exit %d)" % code)
-    else:
-        verdict = "caught" if code == 1 and viol else ("UNDECIDED(exit %d)" % code if code in (2, 3) else "MISSED")
-    meta["caught_by"] = {"check": "./check %s --tier quick" % prop, "exit": code, "verdict": verdict,
-                         "failed_obligations": obl[:6], "counterexample_replayed_natively": confirmed,
-                         "seconds": round(time.time() - t0, 1), "repo_head": subprocess.run("git -C /repo rev-parse --short HEAD", shell=True, capture_output=True, text=True).stdout.strip()}
-    json.dump(meta, open(os.path.join(d, "meta.json"), "w"), indent=1)
-    rows.append((n, prop, verdict, (obl[0] if obl else ""), confirmed))
-    print(n, verdict, obl[:1], "native-confirmed" if confirmed else "", flush=True)
+        sh("git -C /repo worktree remove --force %s" % wt)
+
+
+by_prop = {}
+for n in names:
+    meta = json.load(open(os.path.join(V, "seeded", n, "meta.json")))
+    by_prop.setdefault(meta["property"], []).append(n)
+with ThreadPoolExecutor(JOBS) as tp:
+    list(tp.map(lambda kv: run_property(kv[0], kv[1]), sorted(by_prop.items(), key=lambda kv: -len(kv[1]))))
+sh("git -C /repo worktree prune")
+
 # rebuild the whole table from every meta.json (so a partial run keeps the other rows)
 allrows = []
 for n in sorted(d for d in os.listdir(os.path.join(V, "seeded")) if os.path.isdir(os.path.join(V, "seeded", d))):
@@ -52,6 +89,7 @@ with open(os.path.join(V, "seeded", "RESULTS.md"), "w") as f:
         f.write("| %s | %s | %s | %s | `%s` | %s |\n" % (r[0], r[1], r[2], r[3], r[4], "yes" if r[5] else ("no" if r[2] == "defect" else "-")))
     d = [r for r in allrows if r[2] == "defect"]
     h = [r for r in allrows if r[2] != "defect"]
-    f.write("\n%d defects: %d caught, %d missed, %d undecided.  %d harmless refactorings: %d quiet, %d false alarm, %d undecided (exit 2/3: a loop under contract was moved or renamed).\n" % (
+    f.write("\n%d defects: %d caught, %d missed, %d undecided.  %d harmless refactorings: %d quiet (%d of them through the bounded fall-back for an edited loop), %d false alarm, %d undecided.\n" % (
         len(d), len([r for r in d if r[3] == "caught"]), len([r for r in d if r[3] == "MISSED"]), len([r for r in d if r[3].startswith("UNDECIDED")]),
-        len(h), len([r for r in h if r[3].startswith("quiet")]), len([r for r in h if r[3] == "FALSE ALARM"]), len([r for r in h if r[3].startswith("UNDECIDED")])))
+        len(h), len([r for r in h if r[3].startswith("quiet")]), len([r for r in h if "fall-back" in r[3]]),
+        len([r for r in h if r[3] == "FALSE ALARM"]), len([r for r in h if r[3].startswith("UNDECIDED")])))
